@@ -42,6 +42,9 @@ def build(backend, tier):
         "index-neg2": (f"{S}[-2].pt()", [f"{S}.Count() > 1"]),
         "index-last": (f"{S}[{S}.Count() - 1].pt()", [f"{S}.Count() > 0"]),
         "index-count": (f"{S}[{S}.Count()].pt()", []),
+        "first-selectmany-where": (f"{S}.SelectMany(lambda j: {T}.Where(lambda k: k.pt() > j.pt())).First().pt()", [f"{S}.SelectMany(lambda j: {T}.Where(lambda k: k.pt() > j.pt())).Count() > 0"]),
+        "first-selectmany-parts-where": (f"{S}.SelectMany(lambda j: j.parts().Where(lambda p: p.pt() > 0.5)).First().pt()", [f"{S}.SelectMany(lambda j: j.parts().Where(lambda p: p.pt() > 0.5)).Count() > 0"]),
+        "first-selectmany-select": (f"{S}.SelectMany(lambda j: j.parts().Select(lambda p: p.pt())).First()", [f"{S}.SelectMany(lambda j: j.parts()).Count() > 0"]),
         "first-tags-first": (f"{S}.First().tags().First()", []),
         "first-of-constant": (f"{S}.Where(lambda j: j.pt() > 1).Select(lambda j: 1).First()", [f"{S}.Where(lambda j: j.pt() > 1).Count() > 0"]),
         "first-of-float-constant": (f"{S}.Select(lambda j: 2.5).First()", [f"{S}.Count() > 0"]),
